@@ -1,5 +1,7 @@
 from typing import TypeVar, Generic, Pattern, Callable, Iterator, Optional, Sequence
 
+from exactly_lib.common.report_rendering import text_docs
+from exactly_lib.common.report_rendering.text_doc import TextRenderer
 from exactly_lib.definitions.entity import syntax_elements
 from exactly_lib.impls.description_tree import custom_details
 from exactly_lib.impls.description_tree.tree_structured import WithCachedNodeDescriptionBase
@@ -10,6 +12,7 @@ from exactly_lib.impls.types.string_transformer import names
 from exactly_lib.impls.types.string_transformer.impl.sources.transformed_string_sources import \
     StringTransformerFromLinesTransformer
 from exactly_lib.symbol.sdv_structure import references_from_objects_with_symbol_references, SymbolReference
+from exactly_lib.tcfs.hds import HomeDs
 from exactly_lib.tcfs.tcds import TestCaseDs
 from exactly_lib.test_case.app_env import ApplicationEnvironment
 from exactly_lib.type_val_deps.dep_variants.adv.app_env_dep_val import ApplicationEnvironmentDependentValue
@@ -30,6 +33,7 @@ from exactly_lib.util.description_tree import details, renderers
 from exactly_lib.util.description_tree.renderer import NodeRenderer, DetailsRenderer
 from exactly_lib.util.description_tree.tree import Node
 from exactly_lib.util.render import strings
+from exactly_lib.util.str_ import str_constructor
 from exactly_lib.util.symbol_table import SymbolTable
 
 
@@ -190,14 +194,15 @@ class _Ddv(StringTransformerDdv):
 
     @property
     def validator(self) -> DdvValidator:
-        return (
-            self._regex.validator()
+        regex_and_replacement = [
+            self._regex.validator(),
+            _ReplacementValidator(self._regex, self._replacement),
+        ]
+        return ddv_validators.all_of(
+            regex_and_replacement
             if self._lines_selector is None
             else
-            ddv_validators.all_of([
-                self._lines_selector.validator,
-                self._regex.validator(),
-            ])
+            [self._lines_selector.validator] + regex_and_replacement
         )
 
     def value_of_any_dependency(self, tcds: TestCaseDs) -> StringTransformerAdv:
@@ -205,6 +210,46 @@ class _Ddv(StringTransformerDdv):
                     self._preserve_new_lines,
                     self._regex.value_of_any_dependency(tcds),
                     self._replacement.value_of_any_dependency(tcds))
+
+
+class _ReplacementValidator(DdvValidator):
+    """Validates that the replacement string is a valid replacement template for the (valid) regex."""
+
+    def __init__(self,
+                 regex: RegexDdv,
+                 replacement: StringDdv,
+                 ):
+        self._regex = regex
+        self._replacement = replacement
+
+    def validate_pre_sds_if_applicable(self, hds: HomeDs) -> Optional[TextRenderer]:
+        if self._has_dir_dependencies():
+            return None
+        return self._validate(self._regex.value_when_no_dir_dependencies(),
+                              self._replacement.value_when_no_dir_dependencies())
+
+    def validate_post_sds_if_applicable(self, tcds: TestCaseDs) -> Optional[TextRenderer]:
+        if not self._has_dir_dependencies():
+            return None
+        return self._validate(self._regex.value_of_any_dependency(tcds),
+                              self._replacement.value_of_any_dependency(tcds))
+
+    def _has_dir_dependencies(self) -> bool:
+        return bool(self._regex.resolving_dependencies()) or bool(self._replacement.resolving_dependencies())
+
+    @staticmethod
+    def _validate(regex: Pattern[str], replacement: str) -> Optional[TextRenderer]:
+        try:
+            regex.sub(replacement, '')
+            return None
+        except Exception as ex:
+            return text_docs.single_line(
+                str_constructor.FormatPositional(
+                    "Invalid replacement {}: '{}'",
+                    syntax_elements.STRING_SYNTAX_ELEMENT.singular_name,
+                    ex,
+                )
+            )
 
 
 class _Adv(ApplicationEnvironmentDependentValue[StringTransformer]):
